@@ -35,6 +35,8 @@ int main() {
       case 2: d = decide<2>(k, v); break;
       case 3: d = decide<3>(k, v); break;
       case 4: d = decide<4>(k, v); break;
+      case 5: d = decide<5>(k, v); break;
+      case 7: d = decide<7>(k, v); break;
       case 8: d = decide<8>(k, v); break;
       default: return 4;
     }
